@@ -618,15 +618,20 @@ def projection_rules(rep, ix, fx, cls, om):
         if len(conds) != 1:
             rep.unknown("project.formula", top.fq, "projection branch has %d symbolic conditions" % len(conds), top.where())
             return
-    lgs_p = [c for c in pos if c[5][0][1] is True][0]
-    ngs_p = [c for c in pos if c[5][0][1] is False][0]
-    lgs_d = [c for c in dia if c[5][0][1] is True][0]
-    ngs_d = [c for c in dia if c[5][0][1] is False][0]
-    cond = lgs_p[5][0][0]
+    # the interpreter records every decision in its positive spelling (`a != b` as not `a == b`): the cone branch is the one
+    # where `gs_altitude == 0` is False (or, for a test written some other way, where the test is True)
+    cond = pos[0][5][0][0]
+    ca_ = cond.single_atom() if isinstance(cond, Rat) else None
+    lgs_when = False if (isinstance(ca_, Fn) and ca_.name == "cmp" and ca_.args[0] == "==") else True
+    lgs_p = [c for c in pos if c[5][0][1] is lgs_when][0]
+    ngs_p = [c for c in pos if c[5][0][1] is (not lgs_when)][0]
+    lgs_d = [c for c in dia if c[5][0][1] is lgs_when][0]
+    ngs_d = [c for c in dia if c[5][0][1] is (not lgs_when)][0]
     w2s = [a for a in cond.atoms() if isinstance(a, Sym) and "loopvar" in a.flags]
     w2 = Rat.atom(w2s[0]) if len(w2s) == 1 else None
     from ..interp import mk_cmp
-    rep.check(w2 is not None and same_value(cond, mk_cmp("!=", g(A("gs_altitudes"), w2), Rat.const(0))), "project.branch",
+    rep.check(w2 is not None and (same_value(cond, mk_cmp("==", g(A("gs_altitudes"), w2), Rat.const(0))) or
+                                  same_value(cond, mk_cmp("==", Rat.const(0), g(A("gs_altitudes"), w2)))) and lgs_when is False, "project.branch",
               top.fq + ": cone projection iff gs_altitude != 0", "projection branches on %s" % nf(cond, 120), top.where())
     if w2 is None:
         return
